@@ -50,6 +50,7 @@ const (
 	sigReindex      = "C14/indexer/reindex-changes-index"
 	sigLookup       = "C14/indexer/lookup-disagrees-with-block-position"
 	sigConsensus    = "C14/indexer/consensus-results-malformed"
+	sigPanicPrefix  = "C14/indexer/indexblock-panicked/"
 )
 
 type caseDesc struct {
@@ -84,6 +85,55 @@ type driver struct {
 	cases  *CasesFile
 	seed   uint64
 	stalls int // lives in which the service never got where it had to (each one is reported as a violation)
+	chain  int // the chain being worked on
+	panics map[string]bool // IndexBlock panics already reported (chain/height)
+}
+
+type blockIndexer interface {
+	IndexBlock(*cmttypes.Block, []*abci.ExecTxResult) error
+}
+
+// indexBlock hands block h (with the given results) to the indexer the way server/indexer_service.go does. An error
+// fails the driver. A PANIC is an oracle hit: EVMIndexerService has no recover, so the node process dies, and dies
+// again at the same block after every restart (the service resumes at lastIndexedBlock+1) - the block is never
+// indexed, no transaction of it or of any later block is ever found ("once a block has been indexed, every Ethereum
+// transaction in it can be found ... also for transactions that failed"; the index is no function of the chain any
+// more). false = it panicked.
+func (d *driver) indexBlock(w *world, idx blockIndexer, h int64, results []*abci.ExecTxResult, where string) bool {
+	var err error
+	p := CatchPanic(func() { err = idx.IndexBlock(w.blocks[h-1].block, results) })
+	if p != nil {
+		d.reportPanic(w, h, results, where, p)
+		return false
+	}
+	require.NoError(d.t, err)
+	return true
+}
+
+func (d *driver) reportPanic(w *world, h int64, results []*abci.ExecTxResult, where string, p interface{}) {
+	key := fmt.Sprintf("%d/%d", d.chain, h)
+	d.side.Count("indexblock_panicked:" + where)
+	if d.panics == nil {
+		d.panics = map[string]bool{}
+	}
+	if d.panics[key] {
+		return
+	}
+	d.panics[key] = true
+	views := w.projectBlock(w.blocks[h-1], results)
+	class, classes := "no-undecodable-payload-in-block", make([]string, len(views))
+	for i := len(views) - 1; i >= 0; i-- {
+		classes[i] = views[i].class()
+		if views[i].BadPayload {
+			class = classes[i]
+		}
+	}
+	msg := fmt.Sprintf("%v", p)
+	if len(msg) > 300 {
+		msg = msg[:300]
+	}
+	d.side.Hit(sigPanicPrefix+class, fmt.Sprintf("KVIndexer.IndexBlock panicked on the committed block %d (%s): %s; the indexer service has no recover, the node dies on this block at every start and the block is never indexed",
+		h, where, msg), map[string]interface{}{"chain": d.chain, "seed": d.seed, "height": h, "where": where, "block": classes})
 }
 
 func (d *driver) add(kind string, chain int, w *world, views [][]txView, term string, canonical string, nontrivial bool, extra interface{}) {
@@ -105,6 +155,7 @@ func (d *driver) add(kind string, chain int, w *world, views [][]txView, term st
 
 func (d *driver) chainCase(ci int, r *Rng) {
 	t := d.t
+	d.chain = ci
 	c := NewChain(t, time.Time{})
 	w := newWorld(t, c)
 	g := newGen(w, r)
@@ -189,6 +240,9 @@ func (d *driver) checkConsensusShape(w *world, views [][]txView, ci int) {
 					bad = "failed Ethereum tx carries a tx_receipt event"
 				}
 				run += v.Gas
+			}
+			if v.BadPayload && (v.CodeOK || len(v.Events) != 0) {
+				bad = "an Ethereum-lane tx whose payload is not a decodable Ethereum transaction was admitted / carries EVM events"
 			}
 			if v.admitted() {
 				if v.From != v.Signer {
@@ -314,14 +368,14 @@ func (d *driver) indexCase(ci int, r *Rng, w *world, views [][]txView, canon str
 		feeds = append(feeds, int64(h))
 	}
 	for _, h := range feeds {
-		require.NoError(t, idx.IndexBlock(w.blocks[h-1].block, w.blocks[h-1].res.TxResults))
+		d.indexBlock(w, idx, h, w.blocks[h-1].res.TxResults, "CIndex")
 	}
 	before := dumpDB(t, db)
 	// re-index some blocks (idempotence; order arbitrary)
 	for i, k := 0, r.Intn(4); i < k; i++ {
 		h := int64(1 + r.Intn(n))
 		feeds = append(feeds, h)
-		require.NoError(t, idx.IndexBlock(w.blocks[h-1].block, w.blocks[h-1].res.TxResults))
+		d.indexBlock(w, idx, h, w.blocks[h-1].res.TxResults, "CIndex/re-index")
 	}
 	after := dumpDB(t, db)
 	if !dumpEq(before, after) {
@@ -453,7 +507,7 @@ func (d *driver) mutatedCase(ci int, r *Rng, w *world, canon string) {
 	idx := w.newIndexer(db)
 	var fs []string
 	for h := 1; h <= n; h++ {
-		require.NoError(t, idx.IndexBlock(w.blocks[h-1].block, results[h-1]))
+		d.indexBlock(w, idx, int64(h), results[h-1], "CIndex-mutated")
 		fs = append(fs, CqZi(int64(h)))
 	}
 	counts := make([]int, n)
@@ -498,15 +552,27 @@ func waitFor(cond func() bool) bool {
 	return true
 }
 
-// recIndexer is the real KVIndexer; it only records which heights IndexBlock accepted (returned nil).
+// recIndexer is the real KVIndexer; it only records which heights IndexBlock accepted (returned nil) - and on which it
+// PANICKED: the service calls IndexBlock from its own goroutine without a recover, so the panic would end the process
+// (here: the driver). It is caught, recorded (reported as an oracle hit after the life) and handed to the service as
+// an error, so that the rest of the life can be observed.
 type recIndexer struct {
 	*kvindexer.KVIndexer
-	mu sync.Mutex
-	ok map[int64]bool
+	mu       sync.Mutex
+	ok       map[int64]bool
+	panicked map[int64]interface{}
 }
 
-func (r *recIndexer) IndexBlock(b *cmttypes.Block, res []*abci.ExecTxResult) error {
-	err := r.KVIndexer.IndexBlock(b, res)
+func (r *recIndexer) IndexBlock(b *cmttypes.Block, res []*abci.ExecTxResult) (err error) {
+	if p := CatchPanic(func() { err = r.KVIndexer.IndexBlock(b, res) }); p != nil {
+		r.mu.Lock()
+		if r.panicked == nil {
+			r.panicked = map[int64]interface{}{}
+		}
+		r.panicked[b.Height] = p
+		r.mu.Unlock()
+		return fmt.Errorf("verif: IndexBlock panicked at height %d", b.Height)
+	}
 	if err == nil {
 		r.mu.Lock()
 		r.ok[b.Height] = true
@@ -515,10 +581,12 @@ func (r *recIndexer) IndexBlock(b *cmttypes.Block, res []*abci.ExecTxResult) err
 	return err
 }
 
+// indexed: the height was handed to IndexBlock and accepted (or IndexBlock panicked on it: nothing more will happen)
 func (r *recIndexer) indexed(h int64) bool {
 	r.mu.Lock()
 	defer r.mu.Unlock()
-	return r.ok[h]
+	_, p := r.panicked[h]
+	return r.ok[h] || p
 }
 
 type lifeObs struct {
@@ -601,6 +669,14 @@ func (d *driver) runLife(w *world, inner sdkdb.DB, in incSpec) lifeObs {
 	}
 	obs.killed = kdb.isDead()
 	idx.mu.Lock()
+	var ph []int64
+	for h := range idx.panicked {
+		ph = append(ph, h)
+	}
+	sort.Slice(ph, func(i, j int) bool { return ph[i] < ph[j] })
+	for _, h := range ph {
+		d.reportPanic(w, h, w.blocks[h-1].res.TxResults, "EVMIndexerService loop", idx.panicked[h])
+	}
 	obs.indexedOK = map[int64]bool{}
 	for h := range idx.ok {
 		obs.indexedOK[h] = true
@@ -889,7 +965,7 @@ func (d *driver) svcHistory(kind string, ci int, r *Rng, w *world, views [][]txV
 	ref := sdkdb.NewMemDB()
 	ridx := w.newIndexer(ref)
 	for h := s0 + 1; h <= n; h++ {
-		require.NoError(t, ridx.IndexBlock(w.blocks[h-1].block, w.blocks[h-1].res.TxResults))
+		d.indexBlock(w, ridx, h, w.blocks[h-1].res.TxResults, "CSvc/uninterrupted-run")
 	}
 	d.convergenceOracle(ci, w, s0, incs, obs, final, dumpDB(t, ref))
 	if incs[len(incs)-1].Earliest > 1 {
@@ -1071,12 +1147,11 @@ type expRc struct {
 }
 
 func (d *driver) rpcCase(ci int, r *Rng, w *world, views [][]txView, canon string, interesting bool) {
-	t := d.t
 	n := int64(len(w.blocks))
 	db := sdkdb.NewMemDB()
 	idx := w.newIndexer(db)
 	for h := int64(1); h <= n; h++ {
-		require.NoError(t, idx.IndexBlock(w.blocks[h-1].block, w.blocks[h-1].res.TxResults))
+		d.indexBlock(w, idx, h, w.blocks[h-1].res.TxResults, "CRpc")
 	}
 	be := w.backend(idx)
 	hit := func(what, msg string, c interface{}) {
